@@ -269,7 +269,8 @@ Definition judge_c13 (g : cfg) (gh : g13) (o : obs) : list N * g13 :=
             (match delivered with
              | q :: _ => if nlist_eqb (k_topic q) (k_topic p) then [] else [9]
              | [] => [] end,
-             if is_nil (errors evs) then (a, k_topic p) :: assoc_remove a rr0 else rr0)
+             (* ... an error about an automatic response that is too large for the peer does not reject the packet *)
+             if forallb (fun e => e =? E_PACKET_TOO_LARGE) (errors evs) then (a, k_topic p) :: assoc_remove a rr0 else rr0)
         | None =>
           (match delivered with
            | q :: _ => if nlist_eqb (k_topic q) (k_topic p) && negb (is_nil (k_topic q)) then [] else [10]
